@@ -1,19 +1,20 @@
-(** C14: the faithful model reproduces the defects F19 and F20 of /repo (witnesses by computation). *)
+(** C14: concrete witnesses.  F19 and F20 were repaired in /repo (commits fe13a06, 450bcaa) and the
+    model follows the repaired code: their former counterexamples are kept as regression examples.
+    F21 is not repaired: the faithful model still refutes the unguarded statement. *)
 From Coq Require Import List Arith Bool PeanoNat ZArith QArith.
 Import ListNotations.
 Require Import Fggs.Model.Json.
 Local Open Scope nat_scope.
 
-(** F19: a patterned specification without "vaxes" -- which the format allows (the key is read with
-    [j.get]) and which should denote the dense tensor [physical] -- raises AssertionError *)
+(** formerly F19: a patterned specification without "vaxes" denotes the dense tensor [physical] *)
 Definition f19_spec : json := JDict [(k_physical, JList [JNum (NFin 1); JNum (NFin 2)])].
 
-Lemma f19_refuted : json_to_weights_model f19_spec = Err AssertErr.
+Example f19_now_dense :
+  (do pt <- json_to_weights_model f19_spec; pt_to_dense pt) = Ok (TL [TS (NFin 1); TS (NFin 2)]).
 Proof. reflexivity. Qed.
 
-(** F20: S -> (empty graph); a terminal t : (N) that occurs in no rule, with a factor.
-    [fgg_to_json] writes it, [json_to_fgg] raises KeyError because [FGG.from_hrg] rebuilt the label
-    table from the rules only. *)
+(** formerly F20: S -> (empty graph); a terminal t : (N) that occurs in no rule, with a factor.
+    [json_to_fgg (fgg_to_json g)] now succeeds and keeps the label. *)
 Definition f20_S : elabel := mkEL [83] [] false.
 Definition f20_t : elabel := mkEL [116] [[78]] true.
 Definition f20_hrg : hrg := mkHRG [f20_S; f20_t] f20_S [(f20_S, [mkRule f20_S (mkGraph [] [] [])])].
@@ -21,23 +22,13 @@ Definition f20_fgg : fgg :=
   mkFGG f20_hrg [([78], DRange 2)]
         [([116], FFinite (mkPT (TL [TS (NFin 1); TS (NFin 2)]) 0 [2] [APhys 0 2] (NFin 0)))].
 
-Lemma f20_wf : wf_hrg f20_hrg = true.
-Proof. reflexivity. Qed.
+Example f20_now_roundtrips : forall dec,
+  exists j g', fgg_to_json_model dec f20_fgg = Ok j /\ json_to_fgg_model 0 j = Ok g' /\
+               h_labels (f_hrg g') = [f20_S; f20_t] /\ map fst (f_factors g') = [[116]].
+Proof. intro dec. eexists. eexists. split; [reflexivity|]. split; [vm_compute; reflexivity|]. split; reflexivity. Qed.
 
-Lemma f20_refuted : forall dec,
-  exists j, fgg_to_json_model dec f20_fgg = Ok j /\ json_to_fgg_model 0 j = Err KeyErr.
-Proof. intro dec. eexists. split; [reflexivity|]. vm_compute. reflexivity. Qed.
-
-(** the silent form: without the factor the round trip succeeds but the label [t] is gone *)
-Definition f20_fgg' : fgg := mkFGG f20_hrg [([78], DRange 2)] [].
-
-Lemma f20_labels_dropped : forall dec,
-  exists j g', fgg_to_json_model dec f20_fgg' = Ok j /\ json_to_fgg_model 0 j = Ok g' /\
-               h_labels (f_hrg g') = [f20_S].
-Proof. intro dec. eexists. eexists. split; [reflexivity|]. split; vm_compute; reflexivity. Qed.
-
-(** F21 (found by this check): a finite factor over (N, M) with N empty and |M| = 3.  Its weights
-    (shape (0, 3)) are written as the empty list, which reads back with shape (0,):
+(** F21 (found by this check, not repaired): a finite factor over (N, M) with N empty and |M| = 3.
+    Its weights (shape (0, 3)) are written as the empty list, which reads back with shape (0,):
     [json_to_fgg] raises ValueError (wrong shape). *)
 Definition f21_t : elabel := mkEL [116] [[78]; [77]] true.
 Definition f21_n : node := mkNode [78] (Explicit [110]).
@@ -53,9 +44,3 @@ Lemma f21_refuted : forall dec,
   wf_hrg f21_hrg = true /\
   exists j, fgg_to_json_model dec f21_fgg = Ok j /\ json_to_fgg_model 0 j = Err ValueErr.
 Proof. intro dec. split; [reflexivity|]. eexists. split; [reflexivity|]. vm_compute. reflexivity. Qed.
-
-(** the grammar-level functions are not affected: [json_to_hrg] keeps every label *)
-Lemma f20_hrg_level_fine : forall dec,
-  exists j g', hrg_to_json_model dec f20_hrg = Ok j /\ json_to_hrg_model 0 j = Ok g' /\
-               h_labels g' = [f20_S; f20_t].
-Proof. intro dec. eexists. eexists. split; [reflexivity|]. split; vm_compute; reflexivity. Qed.
